@@ -2512,7 +2512,7 @@ ASSUMPTIONS += [
     "a key is a string or a tuple of Python ints / bools / numpy integers (numpy bool, float and sympy entries are refused with "
     "RuntimeError - out of domain); the qubit list may be a list / tuple / range / 1-d numpy integer array of Python or numpy ints.  "
     "numpy float32 weights are normalised in float32: they are generated with dyadic values whose total is a power of two (exact)",
-    "EXCLUDED (defect of the unchanged library, reported): weights given as numpy integers of a width their TOTAL does not fit - "
+    "KNOWN FINDING weights-narrow-numpy-int-total-wraps (probed directly on every run by harness/finding_probes.py, not generated): weights given as numpy integers of a width their TOTAL does not fit - "
     "sum() of numpy scalars wraps around, MeasurementOutcomeDistribution({(0,): np.int8(100), (1,): np.int8(100)}) holds the "
     "'probabilities' -1.79 each (np.uint8(200), np.uint8(100): 4.55 and 2.27); typed integer weights are generated with 3 * total + 5 inside the type",
 ]
